@@ -537,6 +537,12 @@ class World:
                 fd.save(d)
                 out['files'] = sorted(p.name for p in d.glob('femio_*'))
                 live.append([fd, d, None])
+                try:
+                    out['shape'] = shape_of(fd)
+                    out['file_keys'] = {p.name: [str(k) for k in np.load(p, allow_pickle=True).files]
+                                        for p in d.glob('femio_*.npz')}
+                except Exception:
+                    out['shape_error'] = traceback.format_exc()[-300:]
             except Exception as e:
                 out['exc'] = 'save: ' + type(e).__name__ + ': ' + str(e)[:160]
                 live.append(None)
@@ -555,8 +561,60 @@ class World:
             out['diff'] = [c for c in COMPS if before[c] != after[c]]
             if 'settings' in out['diff']:
                 out['settings'] = [repr(dict(lv[0].settings))[:200], repr(dict(lv[2].settings))[:200]]
+            try:
+                idx = {str(k): i for i, k in enumerate(lv[0].settings.keys())}
+                out['settings_kinds'] = [
+                    [[str(k), py_kind(v, idx[str(k)])] for k, v in lv[0].settings.items()],
+                    [[str(k), loaded_kind(v, idx.get(str(k), -1))] for k, v in lv[2].settings.items()]]
+            except Exception:
+                out['settings_kinds_error'] = traceback.format_exc()[-300:]
             shutil.rmtree(lv[1], ignore_errors=True)
         return outs
+
+
+def py_kind(v, idx):
+    """SetModel.pyv of a Python value (idx: identity)"""
+    if v is None:
+        return ['none']
+    if isinstance(v, str):
+        return ['str', v]
+    if isinstance(v, (bool, int, float, np.generic)):
+        return ['num', idx]
+    return ['seq', [int(x) for x in np.asanyarray(v).shape], idx]
+
+
+def loaded_kind(v, idx):
+    """SetModel.lv of a value found in the settings of a loaded object"""
+    if isinstance(v, np.ndarray):
+        if v.shape == () and v.dtype == object:
+            inner = v.item()
+            return ['arr', ['none'] if inner is None else
+                    (['str', inner] if isinstance(inner, str) else ['seq', [], idx])]
+        if v.shape == () and v.dtype.kind in 'US':
+            return ['arr', ['str', str(v)]]
+        if v.shape == ():
+            return ['arr', ['num', idx]]
+        return ['arr', ['seq', [int(x) for x in v.shape], idx]]
+    return ['py', py_kind(v, idx)]
+
+
+def shape_of(fd):
+    """labels of the six components in iteration order (what ValModel.tagged_fem is built from)"""
+    def coll(c):
+        return [[str(k), bool(getattr(v, 'time_series', False))] for k, v in c.items()]
+    elemental = []
+    for k, v in fd.elemental_data.items():
+        if not isinstance(v, FEMElementalAttribute):
+            return None
+        if any(bool(a.time_series) for a in v.values()):
+            return None
+        elemental.append([str(k), [str(t) for t, _ in v.items()]])
+    if any(bool(a.time_series) for a in fd.elements.values()):
+        return None
+    return {'nodes_ts': bool(fd.nodes.time_series),
+            'types': [str(t) for t, _ in fd.elements.items()],
+            'nodal': coll(fd.nodal_data), 'elemental': elemental,
+            'constraints': coll(fd.constraints), 'settings': [str(k) for k in fd.settings.keys()]}
 
 
 def twice(w, tw):
